@@ -774,3 +774,47 @@ example : uniformPartition Tol.numpy (1 / 100000) [some 0, some (-1)] [none, som
       simp only [List.mem_cons, List.not_mem_nil, or_false] at hx
       rcases hx with rfl | rfl <;> norm_num)
   simpa [UAxis.part] using this
+
+/-- `is_uniform_byaxis` (`np.allclose(diff, diff[0], rtol, atol)`; the driver runs it with the code's
+tolerance `Part1.uniTol`), every number of nodes:
+* coordinates with exactly equal strides are uniform for EVERY non-negative tolerance;
+* with exact comparison the predicate holds iff the nodes are the affine grid `c 0 + i * (c 1 - c 0)`;
+* for an arbitrary tolerance `t` (in particular the code's) a vector accepted as uniform deviates from
+  that affine grid by at most `i * (atol + rtol * |c 1 - c 0|)` at node `i` — the tolerance bounds the
+  stride, so the positional error of treating the axis as uniform grows at most linearly. -/
+theorem C14.is_uniform_spec (P : Part1) :
+    (∀ t : Tol, 0 ≤ t.atol → 0 ≤ t.rtol →
+      (∀ i, i + 1 < P.n → P.c (i + 1) - P.c i = P.c 1 - P.c 0) → P.isUniform t = true) ∧
+    (P.isUniform Tol.exact = true ↔ ∀ i, i < P.n → P.c i = P.c 0 + (i : Rat) * (P.c 1 - P.c 0)) ∧
+    (∀ t : Tol, P.isUniform t = true → ∀ i, i < P.n →
+      rabs (P.c i - (P.c 0 + (i : Rat) * (P.c 1 - P.c 0))) ≤
+        (i : Rat) * (t.atol + t.rtol * rabs (P.c 1 - P.c 0))) :=
+  ⟨fun t h1 h2 h => isUniform_of_equal_diffs t h1 h2 P h, isUniform_exact_iff P,
+   fun t h i hi => isUniform_drift t P h i hi⟩
+
+example : (⟨3, fun i => 2 * i + 1, 0, 6⟩ : Part1).isUniform Tol.numpy = true :=
+  (C14.is_uniform_spec _).1 Tol.numpy (by norm_num [Tol.numpy]) (by norm_num [Tol.numpy])
+    (by intro i _; push_cast; ring)
+
+/-- OPEN FINDING C14-F5 (model counterpart; the model follows the code as it is).  A negative-step slice
+that starts at cell 0, `partition[0::-k]` (every `k ≥ 1`, every valid partition with at least two
+cells): NumPy selects the single node `c 0`; the code takes the limits from the FORWARD unit-step range
+`slice(0, None)` = the whole axis, so it returns a one-cell partition with node `c 0` and limits
+`[min_pt, max_pt]` — a cell strictly larger than the selected cell 0 (`bdry 1 < max_pt`), although
+"the cells of `partition[idx]` are the selected cells of the original".  Negative steps are otherwise
+rejected (`C14.getitem_negative_step`). -/
+theorem C14.getitem_negative_step_hull_fails (P : Part1) (hv : Valid P) (hn : 2 ≤ P.n) (st : Int)
+    (hst : st < 0) :
+    ∃ Q, P.getSlice (some 0) none (some st) = some Q ∧ Q.n = 1 ∧ Q.c 0 = P.c 0 ∧
+      Q.lo = P.lo ∧ Q.hi = P.hi ∧ P.bdry 1 < Q.hi :=
+  getSlice_neg_from_zero P hv hn st hst
+
+/-- `uniform_partition(0, 4, 4)[0::-1]`: node `1/2`, limits `[0, 4]` (the real code prints
+`uniform_partition(0.0, 4.0, 1)`). -/
+example : ∃ Q, (uniformAxis 0 4 4 false false).getSlice (some 0) none (some (-1)) = some Q ∧
+    Q.n = 1 ∧ Q.c 0 = 1 / 2 ∧ Q.lo = 0 ∧ Q.hi = 4 := by
+  obtain ⟨Q, h1, h2, h3, h4, h5, _⟩ := C14.getitem_negative_step_hull_fails (uniformAxis 0 4 4 false false)
+    (C14.uniform_valid 0 4 (by norm_num) 4 (by decide) false false).1 (by decide) (-1) (by decide)
+  refine ⟨Q, h1, h2, ?_, h4, h5⟩
+  rw [h3]
+  norm_num [uniformAxis, gminOf]
